@@ -48,7 +48,7 @@ def run(ctx, chk):
     chk.not_decided = ["termination under concurrent producers", "wall-clock bounds"]
     L = LevelAnalysis(ctx)
     Q = QueueAnalysis(ctx)
-    Q.rule_push(chk, "T7", "T7")
+    Q.rule_push(chk, "T7", None)
     Q.rule_constructors(chk, "T7")
     Q.who_may(chk, "T7")
     b, res, stats = L.paths("match_order")
